@@ -33,6 +33,11 @@ func c17Sources(m mapping.IndexMapping, window int) []c17Source {
 			out = append(out, c17Source{fmt.Sprintf("single negative bin %d", i0+d), []Entry{{-v, 2}}})
 		}
 	}
+	// magnitudes far from 1 (still well inside every mapping's range)
+	for _, v := range []float64{1e-100, 1e-12, 1e9, 1e100} {
+		out = append(out, c17Source{fmt.Sprintf("single value %v", v), []Entry{{v, 3}}})
+	}
+	out = append(out, c17Source{"values 1e-12 and -1e9", []Entry{{1e-12, 1}, {-1e9, 2}}})
 	// small multi-bin sources
 	vals := []float64{0.004, 0.05, 0.7, 1, 1.3, 9, 42, 300}
 	for i := range vals {
